@@ -395,7 +395,7 @@ def compare(p, res, replace_all, ignore, frac, parts=("atoms", "terms", "count")
             bad.append("an input object (structure or a pattern) was modified")
         if any(m not in res["all_matches"] for m in sel_idx):
             bad.append("a replaced match was not among the found matches")
-    if exp["overlap"]:
+    if exp["overlap"] and nr > 0:
         return bad           # with the ignore flag the result is unspecified beyond 'each atom removed at most once'
     got_atoms = [resolved_atom(out, i) for i in range(len(out["pos"]))]
     if "atoms" in parts:
